@@ -64,6 +64,16 @@ func runPinch(c *hlib.Ctx) {
 		pw := powers[c.Rng.Intn(len(powers))]
 		half := g.pow2(2)
 		lo := g.c.Dyadic(4, 2)
+		// near-centre cases (one in three): points at t = ±4^-k from the centre of the range, k = 1..11 for any
+		// range (centre + 16^-k * half is still a float64) and k up to 120 for a range centred at 0 — the
+		// power law has its singular point there, and a pinch followed by its inverse has to return to the
+		// point at every scale (pinch_inverse has no lower bound on |t|).
+		nearCentre := c.Rng.Intn(3) == 0
+		maxK := 11
+		if nearCentre && c.Rng.Intn(2) == 0 {
+			lo = -half
+			maxK = 120
+		}
 		hi := lo + 2*half
 		center := lo + half
 		axis := c.Rng.Intn(3)
@@ -78,6 +88,11 @@ func runPinch(c *hlib.Ctx) {
 				return hi + math.Abs(g.dy()) + 0.125
 			case 2:
 				return []float64{lo, hi, center}[c.Rng.Intn(3)]
+			}
+			if nearCentre && c.Rng.Intn(4) != 0 {
+				k := 1 + c.Rng.Intn(maxK)
+				c.Stat(fmt.Sprintf("pinch.near-centre.%s.t=4^-k.%s", pw.name, []string{"k=1..6", "k=7..13", "k>=14", "k>=14"}[int(math.Min(float64(k/7), 3))]), 1)
+				return center + g.sign()*math.Ldexp(1, -2*k)*half
 			}
 			j := float64(c.Rng.Intn(9))
 			return center + g.sign()*(j*j/64)*half
